@@ -123,9 +123,13 @@ type Block struct {
 	UserData bool
 	SGN, SN  int
 	CS, CF   int
-	In, Out  TC
-	VP, JC   int
-	Rows     []Row
+	// HasEBN: the block carries extension block number EBN (00h..EFh: a block that an extension block follows)
+	// instead of FFh (last or only block of its subtitle). Every non-user-data block is a cue of its own here.
+	HasEBN  bool `json:",omitempty"`
+	EBN     int  `json:",omitempty"`
+	In, Out TC
+	VP, JC  int
+	Rows    []Row
 	// Raw, when not nil, is the text field content sent verbatim (filler is appended); Rows then holds what
 	// it denotes according to DecodeRow (set by the generator).
 	Raw []byte `json:",omitempty"`
@@ -144,6 +148,8 @@ type GSI struct {
 	TND, DSN                         int
 	CO, PUB, EN, ECD                 string
 	UDA                              string
+	TNG                              int    `json:",omitempty"` // total number of subtitle groups; 0 = 1
+	Spare                            string `json:",omitempty"` // the 75 spare bytes (373..447); blank by default
 }
 
 type Doc struct {
@@ -218,6 +224,7 @@ type Render struct {
 	//  0 "0B 0B text 0A 0A"   1 "0B text" (box left open)   2 "0D 0B 0B text 0A 0A" (double height first)
 	//  3 "07 0B 0B text 0A 0A" (alpha white first)   4 "20 20 0B 0B text 0A 0A" (indent outside the box)
 	//  5 "0B 0B text 0A 0A" followed by unboxed characters "zz" (not displayed, not part of the cue)
+	//  6 "0B text 0A" (single start box, single end box)
 	Box int
 	// Colour (teletext only): k > 0 puts alpha-colour code k-1 directly after the start box.
 	Colour int
@@ -233,6 +240,21 @@ type Render struct {
 	// RowFill: number of unused-space codes (8Fh) sent after every row, before the line break: some encoders
 	// pad rows inside the text field; 8Fh is never text.
 	RowFill int
+	// LeadingBreak: a line break precedes the first row (an empty first row).
+	LeadingBreak bool `json:",omitempty"`
+	// EmptyRow: two line breaks instead of one between rows (an empty row in between).
+	EmptyRow bool `json:",omitempty"`
+	// Trail: number of blanks sent at the end of every row (inside the box, after the attribute-off codes).
+	Trail int `json:",omitempty"`
+	// NoFinalOff: attributes still on at the end of the LAST row are not switched off (the text field ends there).
+	NoFinalOff bool `json:",omitempty"`
+	// Ctl (teletext only): a spacing control code 01h..1Fh other than the box codes (alpha colours, flash, steady,
+	// normal/double height/width/size, mosaic colours, conceal, ... - none of them is text or changes
+	// italic/underline/boxing), placed according to CtlPos: 0 directly after the start box, 1 before the start
+	// box, 2 after the text, before the end box, 3 between the first and the second run of a row (where a blank is
+	// outside the denotation anyway). 0 = none.
+	Ctl    int `json:",omitempty"`
+	CtlPos int `json:",omitempty"`
 }
 
 func pad(s string, n int) []byte {
@@ -315,12 +337,20 @@ func styleCodes(from, to Style, form int) []byte {
 // EncodeRow lays out one row. Every attribute still on at the end of the row is switched off there, so
 // the encoding does not depend on whether attributes survive a line break.
 func EncodeRow(row Row, teletext bool, r Render) ([]byte, error) {
+	return encodeRow(row, teletext, r, false)
+}
+
+func encodeRow(row Row, teletext bool, r Render, last bool) ([]byte, error) {
 	var o []byte
+	ctl := teletext && r.Ctl >= 0x01 && r.Ctl <= 0x1F && r.Ctl != 0x0A && r.Ctl != 0x0B
+	if ctl && r.CtlPos == 1 {
+		o = append(o, byte(r.Ctl))
+	}
 	if teletext {
 		switch r.Box {
 		case 0, 5:
 			o = append(o, 0x0B, 0x0B)
-		case 1:
+		case 1, 6:
 			o = append(o, 0x0B)
 		case 2:
 			o = append(o, 0x0D, 0x0B, 0x0B)
@@ -332,6 +362,9 @@ func EncodeRow(row Row, teletext bool, r Render) ([]byte, error) {
 		if r.Colour > 0 {
 			o = append(o, byte(r.Colour-1))
 		}
+		if ctl && r.CtlPos == 0 {
+			o = append(o, byte(r.Ctl))
+		}
 	}
 	for i := 0; i < r.Indent; i++ {
 		o = append(o, 0x20)
@@ -341,6 +374,9 @@ func EncodeRow(row Row, teletext bool, r Render) ([]byte, error) {
 	}
 	var st Style
 	for i, run := range row {
+		if i == 1 && ctl && r.CtlPos == 3 {
+			o = append(o, byte(r.Ctl))
+		}
 		if i > 0 && r.RunBlank {
 			o = append(o, 0x20)
 		}
@@ -352,11 +388,21 @@ func EncodeRow(row Row, teletext bool, r Render) ([]byte, error) {
 		}
 		o = append(o, b...)
 	}
-	o = append(o, styleCodes(st, Style{}, r.StyleForm)...)
+	if !(last && r.NoFinalOff) {
+		o = append(o, styleCodes(st, Style{}, r.StyleForm)...)
+	}
+	for i := 0; i < r.Trail; i++ {
+		o = append(o, 0x20)
+	}
+	if ctl && r.CtlPos == 2 {
+		o = append(o, byte(r.Ctl))
+	}
 	if teletext {
 		switch r.Box {
 		case 0, 2, 3, 4:
 			o = append(o, 0x0A, 0x0A)
+		case 6:
+			o = append(o, 0x0A)
 		case 5:
 			o = append(o, 0x0A, 0x0A, 'z', 'z')
 		}
@@ -367,11 +413,17 @@ func EncodeRow(row Row, teletext bool, r Render) ([]byte, error) {
 // EncodeTextField lays out the rows of a block; the result is at most 112 bytes (error otherwise).
 func EncodeTextField(rows []Row, teletext bool, r Render) ([]byte, error) {
 	var o []byte
+	if r.LeadingBreak {
+		o = append(o, 0x8A)
+	}
 	for i, row := range rows {
 		if i > 0 {
 			o = append(o, 0x8A)
+			if r.EmptyRow {
+				o = append(o, 0x8A)
+			}
 		}
-		b, err := EncodeRow(row, teletext, r)
+		b, err := encodeRow(row, teletext, r, i == len(rows)-1)
 		if err != nil {
 			return nil, err
 		}
@@ -413,7 +465,11 @@ func EncodeGSI(g GSI, nblocks, nsubs int, tcf TC) []byte {
 	put(236, num(g.RN, 2))
 	put(238, num(nblocks, 5))
 	put(243, num(nsubs, 5))
-	put(248, num(1, 3))
+	tng := g.TNG
+	if tng == 0 {
+		tng = 1
+	}
+	put(248, num(tng, 3))
 	put(251, num(g.MNC, 2))
 	put(253, num(g.MNR, 2))
 	put(255, pad(g.TCS, 1))
@@ -425,6 +481,7 @@ func EncodeGSI(g GSI, nblocks, nsubs int, tcf TC) []byte {
 	put(277, pad(g.PUB, 32))
 	put(309, pad(g.EN, 32))
 	put(341, pad(g.ECD, 32))
+	put(373, pad(g.Spare, 75))
 	put(448, pad(g.UDA, 576))
 	return b
 }
@@ -457,6 +514,9 @@ func Encode(d Doc, r Render) ([]byte, error) {
 			continue
 		}
 		t[3] = 0xFF
+		if blk.HasEBN {
+			t[3] = byte(blk.EBN)
+		}
 		t[5], t[6], t[7], t[8] = byte(blk.In.H), byte(blk.In.M), byte(blk.In.S), byte(blk.In.F)
 		t[9], t[10], t[11], t[12] = byte(blk.Out.H), byte(blk.Out.M), byte(blk.Out.S), byte(blk.Out.F)
 		t[13] = byte(blk.VP)
@@ -492,6 +552,8 @@ type Notes struct {
 	DanglingDiacritic   int      // diacritic code not followed by a spacing character
 	Other               []string // field-level oddities
 	TNB, TNS            int      // GSI totals as written (number of TTI blocks, number of subtitles)
+	TNG                 int      // total number of subtitle groups as written
+	TCF                 TC       // timecode of the first in-cue as written
 }
 
 func trimField(b []byte) string { return strings.TrimRight(string(b), " ") }
@@ -680,16 +742,22 @@ func Decode(b []byte) (Doc, Notes, error) {
 	tnb := atoiField(b[238:243], "TNB", &n)
 	n.TNB = tnb
 	n.TNS = atoiField(b[243:248], "TNS", &n)
+	n.TNG = atoiField(b[248:251], "TNG", &n)
+	if n.TNG != 1 {
+		g.TNG = n.TNG
+	}
 	g.MNC = atoiField(b[251:253], "MNC", &n)
 	g.MNR = atoiField(b[253:255], "MNR", &n)
 	g.TCS = string(b[255:256])
 	g.TCP = tcField(b[256:264], "TCP", &n)
+	n.TCF = tcField(b[264:272], "TCF", &n)
 	g.TND = atoiField(b[272:273], "TND", &n)
 	g.DSN = atoiField(b[273:274], "DSN", &n)
 	g.CO = trimField(b[274:277])
 	g.PUB = trimField(b[277:309])
 	g.EN = trimField(b[309:341])
 	g.ECD = trimField(b[341:373])
+	g.Spare = trimField(b[373:448])
 	g.UDA = trimField(b[448:1024])
 	nb := (len(b) - 1024) / 128
 	if tnb != nb {
@@ -705,10 +773,10 @@ func Decode(b []byte) (Doc, Notes, error) {
 			continue
 		}
 		if t[3] != 0xFF {
-			n.Other = append(n.Other, fmt.Sprintf("block %d: extension block number %02Xh", k, t[3]))
+			blk.HasEBN, blk.EBN = true, int(t[3])
 		}
-		blk.In = TC{int(t[5]), int(t[6]), int(t[7]), int(t[8])}
-		blk.Out = TC{int(t[9]), int(t[10]), int(t[11]), int(t[12])}
+		blk.In = TC{H: int(t[5]), M: int(t[6]), S: int(t[7]), F: int(t[8])}
+		blk.Out = TC{H: int(t[9]), M: int(t[10]), S: int(t[11]), F: int(t[12])}
 		for _, tc := range []TC{blk.In, blk.Out} {
 			if tc.H > 23 || tc.M > 59 || tc.S > 59 || tc.F >= g.FPS {
 				n.Other = append(n.Other, fmt.Sprintf("block %d: timecode %v out of range at %d fps", k, tc, g.FPS))
